@@ -58,6 +58,10 @@ pub enum Walk {
     TryForEachOk,
     TryForEachFail(usize),
     Insertion,
+    /// Two walks alive at once: `iter()` and `iter_rev()` advanced in lock step
+    /// (`iter().zip(iter_rev())`), a second `iter()` started when the first is
+    /// half way.
+    Interleaved,
 }
 
 pub fn canonical_walks(fail_pos: usize) -> Vec<Walk> {
@@ -71,6 +75,7 @@ pub fn canonical_walks(fail_pos: usize) -> Vec<Walk> {
         Walk::TryFoldOk,
         Walk::TryForEachOk,
         Walk::Insertion,
+        Walk::Interleaved,
         Walk::TryFoldFail(fail_pos),
         Walk::TryForEachFail(fail_pos),
     ]
@@ -123,6 +128,9 @@ pub fn decode_build_case(t: &mut Tape, x: &mut Tape, max_n: usize, cap: Option<u
     // one case in twenty-four is large (65..=120 functions) with sparse access
     // declarations and sparse edges: few conflicts in a big graph
     let large = max_n >= 24 && t.chance(1, 24);
+    if large {
+        t.enable_tail();
+    }
     let n = if large {
         // one large case in twelve is beyond 256 functions (counts that do not fit a byte)
         if t.chance(1, 12) {
@@ -387,7 +395,8 @@ pub fn decode_build_case(t: &mut Tape, x: &mut Tape, max_n: usize, cap: Option<u
     } else {
         let len = 2 + x.below(8);
         (0..len)
-            .map(|_| match x.below(13) {
+            .map(|_| match x.below(14) {
+                13 => Walk::Interleaved,
                 0 => Walk::Iter,
                 1 => Walk::IterRev,
                 2 => Walk::Topo,
@@ -826,6 +835,36 @@ pub fn check_c14(case: &BuildCase, b: &mut Built, f: &BuildFacts) -> Vec<Violati
                     let ids: Vec<usize> = g.iter_rev().map(|f| f.id).collect();
                     check_order(&mut out, &format!("{at}: iter_rev"), &ids, f, true);
                 }
+                Walk::Interleaved => {
+                    let (mut fwd, mut rev, mut second) = (vec![], vec![], vec![]);
+                    {
+                        let mut a = g.iter();
+                        let mut b = g.iter_rev();
+                        let mut c = None;
+                        for step in 0..=n {
+                            if step == n / 2 {
+                                c = Some(g.iter());
+                            }
+                            if let Some(x) = a.next() {
+                                fwd.push(x.id);
+                            }
+                            if let Some(x) = b.next() {
+                                rev.push(x.id);
+                            }
+                            if let Some(c) = c.as_mut() {
+                                if let Some(x) = c.next() {
+                                    second.push(x.id);
+                                }
+                            }
+                        }
+                        if let Some(c) = c.as_mut() {
+                            second.extend(c.map(|x| x.id));
+                        }
+                    }
+                    check_order(&mut out, &format!("{at}: iter (advanced in lock step with iter_rev)"), &fwd, f, false);
+                    check_order(&mut out, &format!("{at}: iter_rev (advanced in lock step with iter)"), &rev, f, true);
+                    check_order(&mut out, &format!("{at}: second iter started half way"), &second, f, false);
+                }
                 Walk::Topo => {
                     let mut topo = g.toposort();
                     let mut ids = vec![];
@@ -1150,6 +1189,27 @@ pub fn check_c17(case: &BuildCase, b: &Built, f: &BuildFacts) -> Vec<Violation> 
                 }
             },
         }
+        }
+        // two walks alive at once (lock step), on the value itself
+        {
+            let (mut fwd, mut rev) = (vec![], vec![]);
+            let mut a = gi.iter();
+            let mut b = gi.iter_rev();
+            for _ in 0..=n {
+                if let Some(x) = a.next() {
+                    fwd.push(x.id);
+                }
+                if let Some(x) = b.next() {
+                    rev.push(x.id);
+                }
+            }
+            let mut o = vec![];
+            check_order(&mut o, "GraphInfo::iter advanced in lock step with iter_rev", &fwd, f, false);
+            check_order(&mut o, "GraphInfo::iter_rev advanced in lock step with iter", &rev, f, true);
+            for mut x in o {
+                x.prop = "C17".into();
+                out.push(x);
+            }
         }
         // iteration
         let ids: Vec<usize> = gi.iter().map(|n| n.id).collect();
@@ -1670,6 +1730,109 @@ pub fn big_builds(prop: &str, thorough: bool, seed: u64) -> BigBuilds {
                 if r.violation.is_none() {
                     if let Some(v) = ev.violations.into_iter().find(|v| v.prop == prop) {
                         r.violation = Some((v, case));
+                    }
+                }
+            });
+        }
+    });
+    res.into_inner().unwrap()
+}
+
+// ------------------------------------------------------------------ build histories
+/// A graph is built, then K tiny graphs are built on the same thread, then the
+/// first graph is built again and judged: reaches state that `build()` keeps per
+/// thread or per process between calls (scratch buffers with generation stamps,
+/// counters narrower than `usize`).  K is chosen around 2^8 and 2^16.
+pub struct BuildHistories {
+    pub instances: u64,
+    pub builds: u64,
+    pub violation: Option<(Violation, BuildCase, u64)>,
+    pub samples: Vec<Value>,
+    pub hashes: Vec<u64>,
+}
+
+/// One build history on a fresh thread: build `case`, `k` tiny builds, build `case`
+/// again; returns (violation charged to `prop`, number of builds).
+pub fn eval_build_history(prop: &str, case: &BuildCase, k: u64) -> (Option<Violation>, u64) {
+    let prop = prop.to_string();
+    let case = case.clone();
+    std::thread::spawn(move || {
+        let first = eval_build_case(&prop, &case);
+        let mut builds = 1u64;
+        let mut viol: Option<Violation> = first.violations.iter().find(|v| v.prop == prop).cloned();
+        if viol.is_none() {
+            for i in 0..k {
+                let mut b: FnGraphBuilder<TestFn> = FnGraphBuilder::new();
+                let a = b.add_fn(TestFn { id: 0, reads: vec![], writes: vec![] });
+                if i % 2 == 1 {
+                    let c = b.add_fn(TestFn { id: 1, reads: vec![], writes: vec![] });
+                    let _ = b.add_logic_edge(a, c);
+                }
+                let g = b.build();
+                std::hint::black_box(&g);
+                builds += 1;
+            }
+            let again = eval_build_case(&prop, &case);
+            builds += 1;
+            // the first build of this very call sequence was judged clean for this
+            // property: whatever is wrong now (a panic included) is charged to it
+            let clean_before = first.violations.is_empty();
+            viol = again
+                .violations
+                .into_iter()
+                .find(|v| v.prop == prop || clean_before)
+                .map(|mut v| {
+                    v.msg = format!("after {k} other builds on the same thread the same call sequence gives: [{}] {}", v.prop, v.msg);
+                    v.prop = prop.clone();
+                    v
+                });
+        }
+        (viol, builds)
+    })
+    .join()
+    .unwrap_or((None, 0))
+}
+
+pub fn build_histories(prop: &str, seed: u64) -> BuildHistories {
+    use std::sync::Mutex;
+    let ks: [u64; 6] = [254, 255, 256, 65_534, 65_535, 65_536];
+    let res: Mutex<BuildHistories> = Mutex::new(BuildHistories { instances: 0, builds: 0, violation: None, samples: vec![], hashes: vec![] });
+    std::thread::scope(|sc| {
+        for (j, k) in ks.iter().copied().flat_map(|k| (0..3).map(move |r| k + 0 * r)).enumerate() {
+            let res = &res;
+            sc.spawn(move || {
+                // a medium case with at least one user edge, from a seed-derived tape
+                let mut x = (seed ^ 0x5DEE_CE66D).wrapping_mul(0x9E37_79B9_7F4A_7C15).wrapping_add(j as u64 * 0x1234_5678_9ABC) | 1;
+                let mut case = None;
+                for _ in 0..200 {
+                    let tape: Vec<u16> = (0..600)
+                        .map(|_| {
+                            x ^= x << 13;
+                            x ^= x >> 7;
+                            x ^= x << 17;
+                            (x >> 40) as u16
+                        })
+                        .collect();
+                    let extra: Vec<u16> = tape.iter().rev().take(60).copied().collect();
+                    let c = decode_build_case(&mut Tape::new(&tape), &mut Tape::new(&extra), 32, None);
+                    // rich enough that a wrong rank or a lost edge shows: chains of >= 3 functions
+                    let ue = user_edges(c.spec.n(), &c.spec.flat_calls()).edges;
+                    let deep = ref_ranks(c.spec.n(), &ue).iter().copied().max().unwrap_or(0) >= 2;
+                    if c.spec.n() >= 8 && c.spec.n() <= 40 && ue.len() >= 4 && deep {
+                        case = Some(c);
+                        break;
+                    }
+                }
+                let Some(case) = case else { return };
+                let (viol, builds) = eval_build_history(prop, &case, k);
+                let mut r = res.lock().unwrap();
+                r.instances += 1;
+                r.builds += builds;
+                r.hashes.push(hash_of(&(&case.spec, k)));
+                r.samples.push(json!({"functions": case.spec.n(), "other_builds_in_between": k, "violations": viol.is_some() as u8}));
+                if r.violation.is_none() {
+                    if let Some(v) = viol {
+                        r.violation = Some((v, case, k));
                     }
                 }
             });
